@@ -63,6 +63,7 @@ type fnWalk struct {
 	deferred [][]accEvent // bodies of deferred function literals, in source order
 	lock     lockSt
 	deferUn  bool // `defer s.mutex.Unlock()` seen
+	usesMu   bool // any s.mutex.<M>() in the body (including closures, defers and go bodies)
 	fields   map[string]bool
 	methods  map[string]bool
 	// conditions of `if ... { ...; return }` statements seen so far in this function (printed), with the lock state
@@ -120,6 +121,7 @@ func (w *fnWalk) mutexCall(e ast.Expr) string {
 		return ""
 	}
 	if f, ok := w.isRecvField(sel.X); ok && f == "mutex" {
+		w.usesMu = true
 		return sel.Sel.Name
 	}
 	return ""
@@ -423,6 +425,9 @@ func (w *fnWalk) goOrDefer(call *ast.CallExpr, how string) {
 		// body runs later (defer) or in another goroutine (go): starts with the mutex free
 		sub := &fnWalk{recv: w.recv, fields: w.fields, methods: w.methods, lock: lkFree}
 		sub.block(fl.Body.List)
+		if sub.usesMu {
+			w.usesMu = true
+		}
 		evs := append([]accEvent(nil), sub.events...)
 		for _, d := range sub.deferred {
 			evs = append(evs, d...)
@@ -611,6 +616,14 @@ structure Access where
 	}
 	sort.Strings(du)
 	fmt.Fprintf(&b, "/-- functions that release the mutex with `defer s.mutex.Unlock()` -/\ndef deferUnlockFns : List Fn := [%s]\n\n", strings.Join(du, ", "))
+	var mu []string
+	for _, f := range fns {
+		if f.w.usesMu {
+			mu = append(mu, "."+leanIdent(f.name))
+		}
+	}
+	sort.Strings(mu)
+	fmt.Fprintf(&b, "/-- functions whose body (closures, deferred and go bodies included) locks or unlocks `s.mutex` -/\ndef mutexFns : List Fn := [%s]\n\n", strings.Join(mu, ", "))
 
 	// ---- ctxio skeleton ----------------------------------------------------------------------
 	cx := parse(filepath.Join(repoDir, "varlink/internal/ctxio/conn.go"))
